@@ -6,7 +6,7 @@
    ("32/0/2147483648" gives -2^63) and nothing is claimed. The tie model <-> code is the differential run (corr), not a theorem. *)
 From Coq Require Import ZArith String List Lia Bool.
 From Coq Require Floats.
-From SID Require Import Base Str Ids ZoomCore AltKeyCore ChangeZoom BitAlt Wire Quadkey QuadkeyConv QuadkeyObj DC11.
+From SID Require Import Base Str Ids ZoomCore AltKeyCore ChangeZoom BitAlt Wire Quadkey QuadkeyConv QuadkeyObj DC11 GenC11.
 From SIDGen Require Generated.
 From SID Require F64.
 Import ListNotations.
